@@ -721,6 +721,10 @@ impl World {
                     self.panic_viol("C08", "observe", &after.doc.clone());
                     self.reps[i].dead = true;
                 } else {
+                    if after.doc.starts_with("PANIC") {
+                        let d = after.doc.clone();
+                        self.panic_viol("C08", "read", &d);
+                    }
                     self.audit(i, &after);
                     let stems: Vec<String> = self.reps[i].prev_files.keys().filter_map(|k| k.strip_suffix(".delta").map(|s| s.to_string())).collect();
                     self.res.digests.push(format!("{}:{}:{}", i, after.state_digest(), obs::graph_digest(&self.reps[i].m, &stems)));
@@ -1526,8 +1530,19 @@ impl World {
     }
 
     fn do_lowlevel(&mut self, i: usize) {
-        let ids = ["x1", "x2", "x3", "a", "b"];
+        let ids = ["x1", "x2", "x3", "a", "b", "x1", "x2", "a", "b", "c", gen::ROOT];
         let id = ids[self.r.below(ids.len())];
+        if self.r.chance(15) {
+            // read a sub-document by identifier (existing, unknown or deleted objects)
+            let m = &self.reps[i].m;
+            let res = guard(|| m.read(Some(id)));
+            self.res.trace.push(format!("r{}.read(Some({:?})) -> {}", i, id, res.describe()));
+            self.res.feat_add("subdocument_reads", 1);
+            if let Outcome::Panic(p) = res {
+                self.panic_viol("C08", "read-subdocument", &p);
+            }
+            return;
+        }
         let p = self.prof.doc.clone();
         let mut obj = Map::new();
         obj.insert("v".into(), gen::rand_scalar(&mut self.r, &p));
